@@ -3,7 +3,8 @@
 // Unit `precedence`: the Pratt parser's binding-power table (C05: predicates follow the documented
 // operator precedence: OR < AND < comparison / LIKE / IN / BETWEEN / IS < additive / || < multiplicative,
 // all binary operators left-associative).
-//@trusted [env] Lexer::__peek_token returns the token after the current one (abstract); the driver loop parse_expr_bp / parse_infix consult this table exactly as in a textbook Pratt parser (not under contract: they build AST values with String payloads)
+//@trusted [env] Lexer::__peek_token returns the token after the current one (abstract); the driver loop parse_expr_bp (`break` at the first operator whose left power is below the minimum) and parse_infix are not under contract (they build AST values with String payloads)
+//@trusted [R11] the `Token::Minus` and `Token::Not` arms of parse_prefix are checked as functions of their own; f64 negation of a literal is the opaque neg()
 use vstd::prelude::*;
 
 verus! {
@@ -31,6 +32,51 @@ impl Parser {
 //@   [C05:prec.not_only_before_in_between_like] old(self).cur() is Not ==> ((r is Some) == (old(self).next() is In || old(self).next() is Between || old(self).next() is Like)),
 //@   [C05:prec.not_binds_like_comparison] (old(self).cur() is Not && r is Some) ==> (r matches Some(p) && p.0 > 4 && p.1 < 7),
 //@   [C05:prec.keeps_token] final(self).cur() == old(self).cur(),
+//@   [C05:prec.left_powers_used_by_prefix_operators] (old(self).cur() is And ==> r == Some((3u8, 4u8))) && (old(self).cur() is Eq ==> r == Some((5u8, 6u8))) && (old(self).cur() is Plus ==> r == Some((7u8, 8u8))) && (old(self).cur() is Star ==> r == Some((9u8, 10u8))),
+//@end
+}
+
+// ---- prefix operators: the operand is parsed with a minimum binding power; parse_expr_bp(m) stops
+// at the first infix operator whose LEFT power is below m (loop in parse_expr_bp, outside).
+pub struct ParseError { pub code: u8 }
+pub type ParseResult<T> = Result<T, ParseError>;
+pub enum UnaryOperator { Minus, Not, Plus }
+pub enum Expr { Number(f64), UnaryOp { op: UnaryOperator, expr: Box<Expr> }, Other }
+#[verifier::external_body]
+pub fn neg(n: f64) -> f64 { unimplemented!() }
+
+pub struct MinusCtx { current_token: Token }
+impl MinusCtx {
+    #[verifier::external_body]
+    pub fn next_token(&mut self) { unimplemented!() }
+    // -a + b is (-a) + b, -a = b is (-a) = b: the operand must stop before every additive (left power 7),
+    // comparison (5) and boolean (3, 1) operator
+    #[verifier::external_body]
+    pub fn parse_expr_bp(&mut self, min_bp: u8) -> (r: ParseResult<Expr>)
+        requires [C05:prefix.unary_minus_binds_tighter_than_additive] min_bp > 7,
+    { unimplemented!() }
+
+//@fn crates/axmos-db/src/sql/parser/mod.rs | impl Parser | parse_prefix
+//@ arm /Token::Minus => \{/ => fn minus_arm(&mut self) -> ParseResult<Expr>
+//@ sub /let num = -n;/ => let num = neg(n);
+//@end
+}
+
+pub struct NotCtx { current_token: Token }
+impl NotCtx {
+    #[verifier::external_body]
+    pub fn next_token(&mut self) { unimplemented!() }
+    // NOT a AND b is (NOT a) AND b (the documented precedence: NOT binds tighter than AND, left power 3),
+    // NOT a = b is NOT (a = b) (comparisons, left power 5, stay inside the operand)
+    #[verifier::external_body]
+    pub fn parse_expr_bp(&mut self, min_bp: u8) -> (r: ParseResult<Expr>)
+        requires
+            [C05:prefix.not_binds_tighter_than_and] min_bp > 3,
+            [C05:prefix.not_binds_looser_than_comparison] min_bp <= 5,
+    { unimplemented!() }
+
+//@fn crates/axmos-db/src/sql/parser/mod.rs | impl Parser | parse_prefix
+//@ arm /Token::Not => \{/ => fn not_arm(&mut self) -> ParseResult<Expr>
 //@end
 }
 
